@@ -211,6 +211,7 @@ func init() {
 			"documented exception). R-IDLECHECK - every path from one Decode of the read loop to the next passes the call that clears the running flag when nothing is pending. R-BLOCKLOCK has no exception: the signal hand-over under the mutex was a demonstrated deadlock and is repaired; R-SIGCHAN checks that every send on / close of a caller's signal channel is confined to the read loop's goroutine; R-PAIR also requires an inserted pending entry to be awaited or removed on every path. R-ONEDECODER - the client has exactly one CBOR stream decoder, created in its constructor. NOT decided: liveness under all schedules as such; deadlocks that need reasoning about the peer.",
 		Assumptions: []string{"sync.Cond has no spurious wake-ups (Go semantics)", "the peer behaves correctly (property premise)"},
 		Rules: []func(*Ctx){
+			func(c *Ctx) { c.ruleDoneGate("R-DONEGATE") },
 			func(c *Ctx) { c.ruleSignalOrder("R-SIGORDER") },
 			func(c *Ctx) { c.rulePairInsert("R-PAIR") },
 			func(c *Ctx) { c.ruleSigChan("R-SIGCHAN") },
